@@ -497,6 +497,21 @@ def gen_scenarios(tier, rnd):
                                   ("R3-rekeyed-controller-honest", R3, {}, True),
                                   ("R3-accessory-knows-old-controller-key", R3, dict(ctrl_ltsk=CTRL_LTSK), False),
                                   ("R1-honest-again", R1, {}, True)])
+    # ---- wrong-id:case-variant: the peer names (and its genuine long-term key signs) an identifier that differs
+    #      from the stored one only in letter case; identifiers are byte strings, so this is another identifier
+    for tr in TRANSPORTS:
+        for k, stored in enumerate((b"AA:BB:CC:DD:EE:FF", b"aA:Bb:cc:DD:e0:1f", "Caf\u00e9-Lamp".encode())):
+            variants = {}
+            for i, ch in enumerate(stored):
+                if (65 <= ch <= 90) or (97 <= ch <= 122):
+                    variants[f"pos{i}"] = stored[:i] + bytes([ch ^ 0x20]) + stored[i + 1:]
+            variants["upper"], variants["lower"] = stored.upper(), stored.lower()
+            variants["swapcase"] = stored.swapcase()
+            S.append(Scn("wrong-id:case-variant:control", tr, 0, record=dict(acc_id=stored), honest=True, detail=f"id{k}:exact"))
+            for name, var in sorted(variants.items()):
+                if var != stored:
+                    S.append(Scn("wrong-id:case-variant", tr, 0, record=dict(acc_id=stored), acc=dict(acc_id=var),
+                                 detail=f"id{k}:{name}"))
     for tr in TRANSPORTS:
         # replies recorded in an EARLIER real exchange of the same process (ephemeral keys as the implementation
         # chooses them, no seam) replayed verbatim into a second exchange: pv_replayed_exchange_fails
@@ -694,6 +709,15 @@ def gen_scenarios(tier, rnd):
         RM.append(("resume:tag:nonempty-plaintext-tlv", [top(l_set(T_ENC, res_tag(1, pt=b"\x06\x01\x02")), "pt-tlv")]))
         RM.append(("resume:tag:for-other-sid", [top(l_set(T_ENC, res_tag(1, nsid=b"\x07" * 8)), "othersid")]))
         RM.append(("resume:tag:empty", [top(l_set(T_ENC, const_v(b"")), "empty")]))
+        for n in range(1, 16):       # a proper, non-empty prefix of the GENUINE 16-byte tag
+            RM.append(("resume:tag:prefix", [top(l_set(T_ENC, lambda ctx, v, n=n: ctx.U.abstract(v.b[:n])), f"first{n}")]))
+        RM.append(("resume:tag:extended", [top(l_set(T_ENC, lambda ctx, v: ctx.U.abstract(v.b + b"\x00")), "17bytes")]))
+        RM.append(("resume:tag:extended", [top(l_set(T_ENC, lambda ctx, v: ctx.U.abstract(v.b + v.b)), "32bytes")]))
+        # one-byte guesses of a peer that does not know the secret: the one equal to the genuine tag's first byte
+        # (computed from the reference) and a few others
+        RM.append(("resume:tag:one-byte-guess", [top(l_set(T_ENC, lambda ctx, v: lit(v.b[:1])), "matching-first-byte")]))
+        for d_ in (1, 0x80, 0xFF, 0x55):
+            RM.append(("resume:tag:one-byte-guess", [top(l_set(T_ENC, lambda ctx, v, d_=d_: lit(bytes([v.b[0] ^ d_]))), f"other^{d_:02x}")]))
         RM.append(("resume:tag:random", [top(l_set(T_ENC, const_v(bytes(range(16)))), "rnd")]))
         for mv in (b"\x05", b"\x00", b"\x02", b"", b"\x06\x00", b"\x00\x06", b"\x06\x01"):
             RM.append(("resume:method:value", [top(l_set(T_METHOD, const_v(mv)), "method=" + mv.hex())]))
